@@ -35,15 +35,21 @@
   emjson-encode / emjson-reencode / diagjson-encode / diagjson-decode / decision-encode / decision-decode / jstr-token /
   coerce-nested / coerce-entity):
     * ENTITY MAPS, full strength on the entity fragment: `C13_entitymap_json_roundtrip`, `_stable`, `_encoding_sorted`
-      (strictly increasing `UID.String()`), `_encoding_order_independent`, `C13_uidString_injective`.  Duplicate UIDs on
-      input are ACCEPTED, the last entry wins (`C13_entitymap_duplicate_uid_last_wins`, for every entity list) — a
-      document that is no entity map's encoding is decoded with silent loss: `C13_entitymap_duplicate_uid_counterexample`,
-      known finding entitymap-duplicate-uid-last-wins.
+      (strictly increasing `UID.String()`), `_encoding_order_independent`, `C13_uidString_injective`.  The decoder, for EVERY
+      array document: `C13_entitymap_decode_exact` / `_ok_iff` (accepted iff every member decodes and no UID is named twice;
+      the map lists exactly the decoded members), `_entries`, `_isMap`, `_rejects_repeated_uid`,
+      `C13_entitymap_decode_rejects_duplicates` (any listing of entities with a repeated UID is refused, any listing without
+      one decodes to itself), `_injective`.  (Until the repair `fix: EntityMap.UnmarshalJSON rejects a repeated entity UID`
+      the last entry of a UID replaced the earlier ones silently: finding entitymap-duplicate-uid-last-wins, now fixed; its
+      witness is a regression `example`.)
     * DIAGNOSTIC, full strength: `C13_diagnostic_json_roundtrip` (every field is encoded; equality up to nil-vs-empty
       slices, the one thing `omitempty` drops: `C13_diagnostic_empty_slice_counterexample`), `_stable`.
-    * DECISION: `C13_decision_json_roundtrip`.  "Every other JSON value is rejected" is FALSE — the decoder compares raw
-      bytes and has no error path: `C13_decision_unknown_accepted_counterexample`, `C13_decision_escaped_spelling_counterexample`
-      (known findings decision-unknown-accepted, decision-escaped-spelling).
+    * DECISION, full strength, on the TEXT of the JSON value: `C13_decision_decode_exact` (decodes to `d` iff the text is a
+      string token that denotes the name of `d`, however it is spelled), `_noop_iff` (`null` and nothing else leaves the
+      receiver alone), `_rejects_iff` + `_cases` (everything else is an error, there is no further outcome),
+      `C13_decision_spellings_agree`, `_decode_into_receiver`, `C13_decision_json_roundtrip`.  (Until the repair
+      `fix: Decision.UnmarshalJSON decodes the string, rejects non-decisions` the decoder compared raw bytes and never failed:
+      findings decision-unknown-accepted, decision-escaped-spelling, now fixed; their witnesses are regression `example`s.)
     * NESTED COERCION, full strength on the value fragment: `C13_coercion_nested_spellings_agree` (every schema type, every
       mix of explicit / implicit spellings at any depth), `_two_spellings`, `_explicit_is_spelling`, `_spellings_injective`,
       `C13_coercion_entity_spellings_agree` (attributes by shape, tags by tag type).
@@ -463,8 +469,7 @@ theorem C13_entitymap_json_roundtrip (m : Entities) (hk : m.IsMap) (hw : m.InRan
       C13_entity_json_roundtrip_inrange x.1 x.2 (hw x ((sortEntities_perm m).mem_iff.mp hx))
     simp only [encodeEntityMap, hne, Bool.false_eq_true, if_false, decodeEntityMap, decodeEntities,
       mapMR_ok_of_forall decodeEntity encodeEntity (sortEntities m) hdec, bind, Except.bind]
-    rw [foldl_entInsert_nodup (sortEntities m) [] (by simpa using sortEntities_nodup hk)]
-    simp
+    rw [entAddAll_nil, if_pos (sortEntities_nodup hk)]
 
 /-- a map that is already listed in encoding order is returned verbatim -/
 theorem C13_entitymap_json_roundtrip_exact (m : Entities) (hk : m.IsMap) (hw : m.InRangeJson)
@@ -485,31 +490,111 @@ example : Entities.IsMap [(("A", "x"), ⟨[], [], []⟩), (("A ", "x"), ⟨[("A"
   simp only [List.mem_cons, List.not_mem_nil, or_false] at he
   rcases he with rfl | rfl <;> exact ⟨by decide +kernel, by decide +kernel, by decide +kernel⟩
 
-/-- **Duplicate UIDs on input: the last entry wins, silently.**  For ANY list of entities (UIDs may repeat) the array of
-    their encodings is accepted, and looking a UID up in the decoded map finds the LAST entry of the array with that UID;
-    the earlier entries leave no trace. -/
-theorem C13_entitymap_duplicate_uid_last_wins (es : Entities) (hw : ∀ e ∈ es, e.2.InRangeJson) :
-    ∃ m, decodeEntityMap (.arr (es.map encodeEntity)) = .ok m ∧
-      ∀ u, Entities.get m u = (es.reverse.find? (fun e => e.1 == u)).map (·.2) := by
-  have hdec : ∀ x ∈ es, decodeEntity (encodeEntity x) = .ok x := fun x hx => C13_entity_json_roundtrip_inrange x.1 x.2 (hw x hx)
-  refine ⟨es.foldl (fun acc e => entInsert e acc) [], ?_, fun u => ?_⟩
-  · simp only [decodeEntityMap, decodeEntities, mapMR_ok_of_forall decodeEntity encodeEntity es hdec, bind, Except.bind]
-  · rw [get_foldl_entInsert u es []]
-    cases es.reverse.find? (fun e => e.1 == u) <;> rfl
+/-- **`EntityMap.UnmarshalJSON`, exactly, for every array document**: the members are decoded first (a member that does
+    not decode fails the document with that member's error); the document is then accepted iff no UID is named twice, and
+    the result lists exactly the decoded members, in document order — nothing is dropped, merged or replaced. -/
+theorem C13_entitymap_decode_exact (xs : List J) :
+    decodeEntityMap (.arr xs) =
+      (mapMR decodeEntity xs).bind (fun es => if (keysOf es).Nodup then .ok es else .error .reject) := by
+  simp only [decodeEntityMap, decodeEntities, bind]
+  cases mapMR decodeEntity xs with
+  | error e => rfl
+  | ok es => simp only [Except.bind, entAddAll_nil]
 
-/-- FULL STATEMENT (violated): "a document that names one UID twice is rejected" — it is not the encoding of any entity map
-    (`C13_entitymap_encoding_sorted`: every UID once).  cedar-go accepts it and drops the earlier entity (known finding
-    entitymap-duplicate-uid-last-wins; the Rust implementation reports a duplicate-entry error). -/
-theorem C13_entitymap_duplicate_uid_counterexample :
-    ∃ (u : UID) (d₁ d₂ : EntityData), d₁.InRangeJson ∧ d₂.InRangeJson ∧ d₁.attrs ≠ d₂.attrs ∧
-      decodeEntityMap (.arr [encodeEntity (u, d₁), encodeEntity (u, d₂)]) = .ok [(u, d₂)] := by
-  refine ⟨("A", "x"), ⟨[], [("k", .long 1)], []⟩, ⟨[], [("k", .long 2)], []⟩,
-    ⟨by decide +kernel, by decide +kernel, by decide +kernel⟩, ⟨by decide +kernel, by decide +kernel, by decide +kernel⟩, by simp, ?_⟩
-  have h1 := C13_entity_json_roundtrip_inrange ("A", "x") ⟨[], [("k", .long 1)], []⟩
-    ⟨by decide +kernel, by decide +kernel, by decide +kernel⟩
-  have h2 := C13_entity_json_roundtrip_inrange ("A", "x") ⟨[], [("k", .long 2)], []⟩
-    ⟨by decide +kernel, by decide +kernel, by decide +kernel⟩
-  simp [decodeEntityMap, decodeEntities, mapMR, h1, h2, bind, Except.bind, entInsert]
+/-- accepted iff every member decodes and the decoded UIDs are pairwise different; the map is the list of the members -/
+theorem C13_entitymap_decode_ok_iff (xs : List J) (m : Entities) :
+    decodeEntityMap (.arr xs) = .ok m ↔ mapMR decodeEntity xs = .ok m ∧ m.IsMap := by
+  rw [C13_entitymap_decode_exact]
+  cases h : mapMR decodeEntity xs with
+  | error e => simp [Except.bind]
+  | ok es =>
+    simp only [Except.bind, Except.ok.injEq, Entities.IsMap]
+    by_cases hn : (keysOf es).Nodup
+    · simp only [hn, if_true, Except.ok.injEq]
+      constructor
+      · rintro rfl; exact ⟨rfl, hn⟩
+      · exact fun h => h.1
+    · simp only [hn, if_false]
+      constructor
+      · intro h; cases h
+      · rintro ⟨rfl, h⟩; exact absurd h hn
+
+/-- an accepted array decodes to a map that contains exactly its entries: as many entities as array members, the i-th
+    entity is what the i-th member decodes to, and every UID occurs once -/
+theorem C13_entitymap_decode_entries (xs : List J) (m : Entities) (h : decodeEntityMap (.arr xs) = .ok m) :
+    m.IsMap ∧ m.length = xs.length ∧ ∀ (i : Nat) (h₁ : i < xs.length) (h₂ : i < m.length), decodeEntity xs[i] = .ok m[i] := by
+  obtain ⟨hm, hk⟩ := (C13_entitymap_decode_ok_iff xs m).mp h
+  exact ⟨hk, mapMR_ok_length decodeEntity xs m hm, mapMR_ok_getElem decodeEntity xs m hm⟩
+
+/-- whatever the document: what the decoder returns is a map (no UID twice) -/
+theorem C13_entitymap_decode_isMap (j : J) (m : Entities) (h : decodeEntityMap j = .ok m) : m.IsMap := by
+  cases j with
+  | arr xs => exact ((C13_entitymap_decode_ok_iff xs m).mp h).2
+  | null =>
+    simp only [decodeEntityMap, decodeEntities, Except.ok.injEq] at h
+    subst h
+    simp [Entities.IsMap, keysOf]
+  | _ => simp [decodeEntityMap, decodeEntities] at h
+
+/-- **a document that names one UID twice is rejected**: members i < j that decode to entities with the same UID -/
+theorem C13_entitymap_decode_rejects_repeated_uid (xs : List J) (es : Entities) (h : mapMR decodeEntity xs = .ok es)
+    (i j : Nat) (hij : i < j) (hj : j < es.length) (he : (es[i]'(Nat.lt_trans hij hj)).1 = es[j].1) :
+    decodeEntityMap (.arr xs) = .error .reject := by
+  rw [C13_entitymap_decode_exact, h]
+  have hn : ¬ (keysOf es).Nodup := by
+    intro hn
+    have hp := List.pairwise_iff_getElem.mp hn i j (by simpa [keysOf] using Nat.lt_trans hij hj) (by simpa [keysOf] using hj) hij
+    simp only [keysOf, List.getElem_map] at hp
+    exact hp he
+  simp [Except.bind, hn]
+
+/-- **Duplicate UIDs on input are rejected; nothing else is.**  For ANY list of entities of the fragment (UIDs may repeat)
+    the array of their encodings is refused if a UID repeats, and otherwise decodes to exactly that list — in any order of
+    the members, not only the sorted one the encoder writes.  (Before the repair such an array was always accepted and the
+    LAST entry of a UID replaced the earlier ones silently.) -/
+theorem C13_entitymap_decode_rejects_duplicates (es : Entities) (hw : ∀ e ∈ es, e.2.InRangeJson) :
+    (¬ es.IsMap → decodeEntityMap (.arr (es.map encodeEntity)) = .error .reject) ∧
+    (es.IsMap → decodeEntityMap (.arr (es.map encodeEntity)) = .ok es) := by
+  have hdec : ∀ x ∈ es, decodeEntity (encodeEntity x) = .ok x := fun x hx => C13_entity_json_roundtrip_inrange x.1 x.2 (hw x hx)
+  rw [C13_entitymap_decode_exact, mapMR_ok_of_forall decodeEntity encodeEntity es hdec]
+  simp only [Except.bind, Entities.IsMap]
+  exact ⟨fun hn => by simp [hn], fun hn => by simp [hn]⟩
+
+/-- decoding is injective on accepted arrays of entity encodings: two different listings never decode to the same map
+    (the silent loss of the unrepaired decoder — `[e₁, e₂]` and `[e₂]` both giving `{e₂}` — is gone) -/
+theorem C13_entitymap_decode_injective (es₁ es₂ : Entities) (m : Entities) (hw₁ : ∀ e ∈ es₁, e.2.InRangeJson)
+    (hw₂ : ∀ e ∈ es₂, e.2.InRangeJson) (h₁ : decodeEntityMap (.arr (es₁.map encodeEntity)) = .ok m)
+    (h₂ : decodeEntityMap (.arr (es₂.map encodeEntity)) = .ok m) : es₁ = es₂ := by
+  have k₁ : es₁.IsMap := Classical.byContradiction fun hn => by
+    rw [(C13_entitymap_decode_rejects_duplicates es₁ hw₁).1 hn] at h₁; cases h₁
+  have k₂ : es₂.IsMap := Classical.byContradiction fun hn => by
+    rw [(C13_entitymap_decode_rejects_duplicates es₂ hw₂).1 hn] at h₂; cases h₂
+  rw [(C13_entitymap_decode_rejects_duplicates es₁ hw₁).2 k₁] at h₁
+  rw [(C13_entitymap_decode_rejects_duplicates es₂ hw₂).2 k₂] at h₂
+  cases h₁; cases h₂; rfl
+
+/-- regression (witness of the former `C13_entitymap_duplicate_uid_counterexample`, known finding
+    entitymap-duplicate-uid-last-wins, fixed): two entries for `A::"x"` with different attributes used to decode to the
+    single entity with `k = 2`; the document is now refused … -/
+example : decodeEntityMap (.arr [encodeEntity (("A", "x"), ⟨[], [("k", .long 1)], []⟩),
+    encodeEntity (("A", "x"), ⟨[], [("k", .long 2)], []⟩)]) = .error .reject :=
+  (C13_entitymap_decode_rejects_duplicates [(("A", "x"), ⟨[], [("k", .long 1)], []⟩), (("A", "x"), ⟨[], [("k", .long 2)], []⟩)]
+    (by
+      intro e he
+      simp only [List.mem_cons, List.not_mem_nil, or_false] at he
+      rcases he with rfl | rfl <;> exact ⟨by decide +kernel, by decide +kernel, by decide +kernel⟩)).1
+    (by simp [Entities.IsMap, keysOf])
+
+/-- … while the same two entities under different UIDs are accepted in the order written (hypotheses satisfiable) -/
+example : decodeEntityMap (.arr [encodeEntity (("A", "y"), ⟨[], [("k", .long 1)], []⟩),
+    encodeEntity (("A", "x"), ⟨[], [("k", .long 2)], []⟩)]) =
+    .ok [(("A", "y"), ⟨[], [("k", .long 1)], []⟩), (("A", "x"), ⟨[], [("k", .long 2)], []⟩)] :=
+  (C13_entitymap_decode_rejects_duplicates [(("A", "y"), ⟨[], [("k", .long 1)], []⟩), (("A", "x"), ⟨[], [("k", .long 2)], []⟩)]
+    (by
+      intro e he
+      simp only [List.mem_cons, List.not_mem_nil, or_false] at he
+      rcases he with rfl | rfl <;> exact ⟨by decide +kernel, by decide +kernel, by decide +kernel⟩)).2
+    (by simp [Entities.IsMap, keysOf])
 
 /-! ## Diagnostic and Decision (`types/authorize.go`)
 
@@ -547,26 +632,147 @@ theorem C13_diagnostic_empty_slice_counterexample :
 example : (⟨some [⟨"policy0", ⟨"a.cedar", 12, 2, 3⟩⟩], some [⟨"p1", ⟨"", 0, 0, 0⟩, "boom"⟩]⟩ : DiagnosticM).InRange := by
   refine ⟨?_, ?_⟩ <;> intro x hx <;> simp only [List.mem_cons, List.not_mem_nil, or_false] at hx <;> subst hx <;> decide
 
-/-- **Decision round trip**: both decisions survive, the text written is the JSON string naming the decision -/
+/-! ### Decision (`Decision.UnmarshalJSON` decodes the JSON string; model `decodeDecisionText` on the TEXT of the value)
+
+`decodeDecisionText raw = .ok (some d)`: the receiver is set to `d`; `.ok none`: left as it was; `.error .reject`: an error.
+`jsonStringToken raw = some s`: `raw` is a JSON string token that denotes `s` (escapes resolved). -/
+
+/-- a string token is never the text `null` (so the `null` test of the decoder never hides a string) -/
+theorem C13_decision_token_ne_null (raw s : String) (h : jsonStringToken raw = some s) : raw ≠ "null" := by
+  rintro rfl
+  rw [show jsonStringToken "null" = none by decide +kernel] at h
+  cases h
+
+/-- **`Decision.UnmarshalJSON`, exactly (1)**: the text decodes to the decision `d` iff it is a JSON string token that —
+    after resolving escapes — denotes the name of `d`; however the name is spelled -/
+theorem C13_decision_decode_exact (raw : String) (d : Bool) :
+    decodeDecisionText raw = .ok (some d) ↔ jsonStringToken raw = some (if d then "allow" else "deny") := by
+  unfold decodeDecisionText
+  by_cases hn : raw = "null"
+  · subst hn
+    constructor
+    · intro h; simp at h
+    · intro h
+      rw [show jsonStringToken "null" = none by decide +kernel] at h
+      cases h
+  · have hn' : (raw == "null") = false := by simpa using hn
+    simp only [hn', Bool.false_eq_true, if_false]
+    cases ht : jsonStringToken raw with
+    | none => simp
+    | some s =>
+      simp only [Option.some.injEq]
+      unfold decisionOfString
+      by_cases ha : s = "allow"
+      · subst ha; cases d <;> simp
+      · by_cases hd : s = "deny"
+        · subst hd; cases d <;> simp
+        · have ha' : (s == "allow") = false := by simpa using ha
+          have hd' : (s == "deny") = false := by simpa using hd
+          cases d <;> simp [ha', hd', ha, hd]
+
+/-- **exactly (2)**: the only text that is accepted without setting the receiver is `null` (encoding/json's no-op) -/
+theorem C13_decision_decode_noop_iff (raw : String) : decodeDecisionText raw = .ok none ↔ raw = "null" := by
+  unfold decodeDecisionText
+  by_cases hn : raw = "null"
+  · simp [hn]
+  · have hn' : (raw == "null") = false := by simpa using hn
+    simp only [hn', Bool.false_eq_true, if_false, hn, iff_false]
+    split
+    · split <;> simp
+    · simp
+
+/-- the three outcomes are all there is (no panic, nothing outside the model) -/
+theorem C13_decision_decode_cases (raw : String) :
+    decodeDecisionText raw = .ok none ∨ (∃ d, decodeDecisionText raw = .ok (some d)) ∨ decodeDecisionText raw = .error .reject := by
+  unfold decodeDecisionText
+  by_cases hn : raw = "null"
+  · simp [hn]
+  · have hn' : (raw == "null") = false := by simpa using hn
+    simp only [hn', Bool.false_eq_true, if_false]
+    cases jsonStringToken raw with
+    | none => simp
+    | some s =>
+      cases hd : decisionOfString s with
+      | none => simp [hd]
+      | some d => simp [hd]
+
+/-- **exactly (3)**: EVERYTHING else is an error — unknown strings (`"Allow"`, `"permit"`, `""`), numbers, booleans, objects,
+    arrays, texts that are no JSON value.  The decoder has no other outcome (`C13_decision_decode_cases`). -/
+theorem C13_decision_decode_rejects_iff (raw : String) :
+    decodeDecisionText raw = .error .reject ↔
+      raw ≠ "null" ∧ jsonStringToken raw ≠ some "allow" ∧ jsonStringToken raw ≠ some "deny" := by
+  have ht := C13_decision_decode_exact raw true
+  have hf := C13_decision_decode_exact raw false
+  have hn := C13_decision_decode_noop_iff raw
+  simp only [if_true, Bool.false_eq_true, if_false] at ht hf
+  constructor
+  · intro h
+    refine ⟨fun h' => ?_, fun h' => ?_, fun h' => ?_⟩
+    · rw [hn.mpr h'] at h; cases h
+    · rw [ht.mpr h'] at h; cases h
+    · rw [hf.mpr h'] at h; cases h
+  · rintro ⟨h₁, h₂, h₃⟩
+    rcases C13_decision_decode_cases raw with h | ⟨d, h⟩ | h
+    · exact absurd (hn.mp h) h₁
+    · cases d
+      · exact absurd (hf.mp h) h₃
+      · exact absurd (ht.mp h) h₂
+    · exact h
+
+/-- **All accepted spellings of one datum decode alike**: two tokens that denote the same string give the same outcome
+    (before the repair `"\u0061llow"` decoded to Deny and `"allow"` to Allow) -/
+theorem C13_decision_spellings_agree (raw₁ raw₂ s : String) (h₁ : jsonStringToken raw₁ = some s)
+    (h₂ : jsonStringToken raw₂ = some s) : decodeDecisionText raw₁ = decodeDecisionText raw₂ := by
+  have n₁ : (raw₁ == "null") = false := by simpa using C13_decision_token_ne_null raw₁ s h₁
+  have n₂ : (raw₂ == "null") = false := by simpa using C13_decision_token_ne_null raw₂ s h₂
+  simp only [decodeDecisionText, n₁, n₂, h₁, h₂]
+
+/-- the receiver matters for `null` only: it is left as it was there, and every other accepted text overwrites it -/
+theorem C13_decision_decode_into_receiver (recv recv' : Bool) (raw : String) :
+    decodeDecisionInto recv "null" = .ok recv ∧
+    (raw ≠ "null" → decodeDecisionInto recv raw = decodeDecisionInto recv' raw) := by
+  refine ⟨by simp [decodeDecisionInto, (C13_decision_decode_noop_iff "null").mpr rfl, Except.map], fun hn => ?_⟩
+  rcases C13_decision_decode_cases raw with h | ⟨d, h⟩ | h
+  · exact absurd ((C13_decision_decode_noop_iff raw).mp h) hn
+  · simp [decodeDecisionInto, h, Except.map]
+  · simp [decodeDecisionInto, h, Except.map]
+
+/-- **Decision round trip**: both decisions survive (into any receiver), the text written is the JSON string naming the
+    decision, and encoding what was decoded gives the same text -/
 theorem C13_decision_json_roundtrip (allow : Bool) :
-    decodeDecisionText (encodeDecisionText allow) = allow ∧
+    decodeDecisionText (encodeDecisionText allow) = .ok (some allow) ∧
+    (∀ recv, decodeDecisionInto recv (encodeDecisionText allow) = .ok allow) ∧
     (jsonStringToken (encodeDecisionText allow)).bind decisionOfString = some allow ∧
-    encodeDecisionText (decodeDecisionText (encodeDecisionText allow)) = encodeDecisionText allow := by
-  cases allow <;> decide +kernel
+    (∀ d, decodeDecisionText (encodeDecisionText allow) = .ok (some d) → encodeDecisionText d = encodeDecisionText allow) := by
+  have h : decodeDecisionText (encodeDecisionText allow) = .ok (some allow) :=
+    (C13_decision_decode_exact _ allow).mpr (by cases allow <;> decide +kernel)
+  refine ⟨h, fun recv => by simp [decodeDecisionInto, h, Except.map], by cases allow <;> decide +kernel, fun d hd => ?_⟩
+  rw [h] at hd
+  cases hd
+  rfl
 
-/-- FULL STATEMENT (violated): "every JSON value other than the strings allow / deny is rejected".  `Decision.UnmarshalJSON`
-    has no error path at all: it returns `string(b) == "\"allow\""`.  A string that names no decision decodes to Deny
-    (known finding decision-unknown-accepted; the same holds for `null`, numbers, objects …). -/
-theorem C13_decision_unknown_accepted_counterexample :
-    ∃ raw s, jsonStringToken raw = some s ∧ decisionOfString s = none ∧ decodeDecisionText raw = false :=
-  ⟨"\"permit\"", "permit", by decide +kernel, by decide +kernel, by decide +kernel⟩
+/-- regression (witness of the former `C13_decision_unknown_accepted_counterexample`, known finding
+    decision-unknown-accepted, fixed): a string that names no decision used to decode to Deny without an error -/
+example : jsonStringToken "\"permit\"" = some "permit" ∧ decisionOfString "permit" = none ∧
+    decodeDecisionText "\"permit\"" = .error .reject :=
+  ⟨by decide +kernel, by decide +kernel, (C13_decision_decode_rejects_iff _).mpr (by decide +kernel)⟩
 
-/-- … and because the RAW BYTES are compared, a JSON string that denotes `allow` but is written with an escape decodes to
-    Deny: two spellings of one datum, two decisions (known finding decision-escaped-spelling) -/
-theorem C13_decision_escaped_spelling_counterexample :
-    ∃ raw, jsonStringToken raw = some "allow" ∧ decodeDecisionText raw = false ∧
-      jsonStringToken (encodeDecisionText true) = some "allow" ∧ decodeDecisionText (encodeDecisionText true) = true :=
-  ⟨"\"\\u0061llow\"", by decide +kernel, by decide +kernel, by decide +kernel, by decide +kernel⟩
+/-- … and so did every other JSON value; all are errors now -/
+example : ∀ raw ∈ ["\"Allow\"", "\"ALLOW\"", "\"allow \"", "\"\"", "1", "0", "true", "false", "{}", "[]", "[\"allow\"]",
+    "{\"decision\":\"allow\"}", "\"\\\"allow\\\"\"", "allow", "\"allow", ""], decodeDecisionText raw = .error .reject := by
+  intro raw h
+  refine (C13_decision_decode_rejects_iff raw).mpr ?_
+  revert raw
+  decide +kernel
+
+/-- regression (witness of the former `C13_decision_escaped_spelling_counterexample`, known finding
+    decision-escaped-spelling, fixed): the escaped spelling of `allow` used to decode to Deny -/
+example : jsonStringToken "\"\\u0061llow\"" = some "allow" ∧ decodeDecisionText "\"\\u0061llow\"" = .ok (some true) ∧
+    decodeDecisionText "\"\\u0064en\\u0079\"" = .ok (some false) ∧
+    decodeDecisionText "\"\\u0061llow\"" = decodeDecisionText (encodeDecisionText true) :=
+  ⟨by decide +kernel, (C13_decision_decode_exact _ true).mpr (by decide +kernel),
+    (C13_decision_decode_exact _ false).mpr (by decide +kernel),
+    C13_decision_spellings_agree _ _ "allow" (by decide +kernel) (by decide +kernel)⟩
 
 /-! ## Schema-guided coercion at any nesting depth (`x/exp/types/json.go`)
 
